@@ -241,6 +241,7 @@ pub fn run(ctx: &Ctx) -> Report {
      x --terminal x {NO_COLOR, TERM=dumb, TERM=xterm}; stdout compared byte-for-byte with the expected payload, stderr emptiness, escape sequences, exit status; non-trivial = any flag set or failure; distinct by configuration",
   );
   report.exhaustive = ctx.replay.is_none();
+  report.rule.push_str("; plus: --open with a talkative launcher first in PATH, announce with no peers and with two trackers sharing a peer, non-UTF-8 option values, help and version forms, lint refusals, standard output closed early or on a full device, standard error on a pseudo-terminal with and without --quiet for eight commands");
   report.correspondences.push("C18.streams: stderr activity / stdout styling of the real binary = Imdlv.Streams.{outStream,errStream}; exit status = exitCode".into());
   let mut cfgs = Vec::new();
   for scenario in ["create-stdout", "create-file", "create-open", "link", "link-open", "show-json", "show", "verify", "announce", "announce-no-peers", "announce-two-trackers", "piece-length", "completions", "usage", "usage-no-subcommand", "usage-torrent-alone", "usage-missing-value", "usage-bad-value", "usage-non-utf8-value", "version", "version-short", "help", "help-subcommand", "create-lint-rejected"] {
